@@ -16,6 +16,7 @@ CONSTANTS
  DevLeaseCheckSkipped = FALSE
  DevFetchAclOnRequestName = FALSE
  DevStaleOwnedOnSessionReplace = FALSE
+ DevLeaseErrMisindexed = FALSE
 INIT Init
 NEXT Next
 INVARIANTS C24_NoEffect C24_AuthError C24_NoLeak C19_AckOnlyIfHeld C19_NoWriteUnlessHeld C19_RefusalCode C19_NotLeaderForOtherOwner OwnsImpliesKey KnownHavePartitions
